@@ -131,6 +131,12 @@ func (m *Engine) dispatchKeys(binds map[string]inputrc.Bind) (bind inputrc.Bind,
 			m.active = m.prefixed
 			m.prefixed = inputrc.Bind{}
 
+			// Only the keys of the shorter bind are its own: those that went on
+			// matching longer ones, now ruled out, are still to be dispatched.
+			if n := m.prefixedLen; m.active.Action != "" && 0 <= n && n <= len(matched) {
+				matched = matched[:n]
+			}
+
 			// FIX related to Github issue #73, where someone
 			// complains not being able to input Unicode characters
 			// correctly. Explanation:
@@ -155,6 +161,7 @@ func (m *Engine) dispatchKeys(binds map[string]inputrc.Bind) (bind inputrc.Bind,
 
 			if match.Action != "" {
 				m.prefixed = match
+				m.prefixedLen = len(matched)
 			}
 
 			continue
